@@ -13,6 +13,7 @@ ME = "alpha_g_physics::MainEvent::"
 ASSEMBLY = [ME + "try_from_banks", ME + "timestamp"]
 KERNELS = [ME + "avalanches", ME + "vertex"]
 DECIDED = os.path.join(build.VERIF, "tables", "c09_decided.json")
+CENSUS = os.path.join(build.VERIF, "tables", "c09_census.json")
 
 FLOAT_SOURCES = ("PartialOrd::partial_cmp", "compute::cholesky", "solve::", "Executor::", "NelderMead::", "Iterator::reduce", "MinMaxResult::",
                  "Iterator::min_by", "Iterator::max_by", "Option::<&T>::copied(Iterator::min_by", "Result::<T, E>::unwrap(Executor", "IterState")
@@ -193,6 +194,11 @@ def kernel_census(prog, sc):
     return out
 
 
+def accept_spec(name):
+    from .. import accept
+    return accept.load_spec(name)
+
+
 def run(prog, tier, res):
     res.explanation = ("Event assembly (MainEvent::try_from_banks, timestamp and every physics-crate function they reach): every MIR Assert, "
                        "panicking std call, explicit panic and loop is discharged as in C01 (detector-crate callees are C01's scope, inputs "
@@ -207,6 +213,7 @@ def run(prog, tier, res):
     R6 = res.rule("C09.R6", "detector-crate functions reached from the event pipeline are inside C01's scope", 50)
     R7 = res.rule("C09.R7", "kernels: every function on the committed decided list (all obligations discharged, closures included) is still fully discharged", 5)
     R8 = res.rule("C09.R8", "result discipline of try_from_banks: every Result is `?`-propagated, returned or matched", 10)
+    R10 = res.rule("C09.R10", "kernels not on the decided list: per function, the undischarged integer/index/unwrap obligations do not exceed the committed census (a discharged site stays discharged)", 20)
     if tier == "thorough":
         oblig.PATH_LIMIT[0] = 4096
     sa, det_a = physics_scope(prog, ASSEMBLY)
@@ -225,6 +232,10 @@ def run(prog, tier, res):
     with open(DECIDED) as fh:
         decided = json.load(fh)["functions"]
     got = kernel_census(prog, sk)
+    with open(CENSUS) as fh:
+        census = json.load(fh)["functions"]
+    inl = getattr(prog, "inlined", {}) or {}
+    got = {f: g for f, g in got.items() if f not in inl}          # new private helpers are counted inside their callers
     n_int = n_float = n_obl = n_dis = 0
     undecided = {}
     for p in sk.bodies:
@@ -244,6 +255,20 @@ def run(prog, tier, res):
                     short(f), n, k.split("/")[0], g["how"].get(k, "")), g["where"].get(k, prog.bodies[f].where()), kind="undischarged")
         elif n_open:
             undecided[short(f)] = dict(g["open"])
+        if f not in decided:
+            # partly decided kernels: the integer/index/unwrap sites the analysis cannot decide are counted on the pinned
+            # tree (tables/c09_census.json); one more of a class means a site that used to be discharged (or a new site) is
+            # no longer shown panic-free.  Float-pipeline classes are census only.
+            base = census.get(f)
+            for k, n in sorted(g["open"].items()):
+                if k.endswith("/float"):
+                    continue
+                n0 = (base or {}).get(k, 0)
+                if n > n0:
+                    res.violate(R10, f, "census:%s" % k, "%s has %d undischarged %s obligation(s), the committed census has %d: %s" % (
+                        short(f), n, k.split("/")[0], n0, g["how"].get(k, "")), g["where"].get(k, prog.bodies[f].where()), kind="undischarged")
+            if base is not None:
+                res.hit(R10)
     # a decided function that disappeared (renamed/removed) is not an alarm; the floor on R7 guards against vacuity
     result_discipline(prog, res, R8, ME + "try_from_banks")
     res.extra["kernel_scope"] = {"bodies": len(sk.bodies), "top_level_functions": len(got), "decided_functions": sorted(short(f) for f in decided if f in got),
@@ -251,6 +276,19 @@ def run(prog, tier, res):
                                  "undecided_by_function": undecided}
     res.trusted = ["C01 for the detector-crate callees", "rustc MIR (dev profile)", "audited-total list panicfree.TOTAL", "tables/c09_decided.json lists the kernel functions that are fully discharged; the others are reported as a census of undecided sites (not findings: no failing input is known for them)"] + \
                   ["audited implication `%s`: %s" % (k, audited.STATEMENTS.get(k, "")) for k in sorted(used)]
+    # R9: the pad centroid divides by ln(middle^2 / (first * last)); that logarithm is non-zero (and the centroid's z finite,
+    # which DriftTables::at's `find(..).unwrap()` downstream relies on) exactly because a hit is only built for a STRICT
+    # local maximum with positive neighbours
+    R9 = res.rule("C09.R9", "pad_hits_at_t builds a hit only under `first > 0 && last > 0 && middle > first && middle > last` (strict): the centroid's logarithm is never 0, so z is never NaN/inf downstream", 1)
+    from . import c13 as _c13
+    pw = _c13.pad_window(prog)
+    want = accept_spec("c13.json")["pad_window"]["guards"]
+    res.functions.add(_c13.PADHITS)
+    if pw.get("guards") == want and pw.get("pushes") == 1:
+        res.hit(R9)
+    else:
+        res.violate(R9, _c13.PADHITS, "centroid-guard", "a pad hit is built under %s; the centroid formula needs the strict local maximum %s (an equal-amplitude plateau "
+                    "gives ln(1) = 0 in the denominator and a NaN z, which panics in DriftTables::at)" % (pw.get("guards"), want), prog.body(_c13.PADHITS).where())
     res.assumptions = ["lazy_static initialisers (embedded calibration/drift tables) are census only"]
     res.undecided = ["float pipeline: Cholesky/solve unwraps, NaN asserts, partial_cmp().unwrap(), argmin run().unwrap() (%d sites)" % n_float,
                      "%d kernel integer/index/loop sites in functions outside the decided list (evidence: undecided_by_function): loop-carried indices, table-shape dependent lookups" % n_int]
